@@ -140,7 +140,7 @@ def _cache_store(job, tier, r):
     ct, ch, missed, creason = r.cover
     if creason or ch < ct or ct < job.min_cover or len(r.obligations) < job.min_obligations:
         return
-    if tier == 'thorough' and (r.cross is None or r.cross.status != 'ok'):
+    if tier == 'thorough' and not getattr(job, 'no_cross', False) and (r.cross is None or r.cross.status != 'ok'):
         return
     os.makedirs(CACHE, exist_ok=True)
     d = {'obligations': r.obligations, 'loop_obligations': r.loop_obligations, 'cover': list(r.cover),
@@ -188,7 +188,7 @@ def _run_job(job, tier):
         res.cover = cov_holder.get('c', (0, 0, [], 'cover thread failed'))
     # thorough: cross-check with a second SAT back end
     res.cross = None
-    if tier == 'thorough' and res.status == 'ok':
+    if tier == 'thorough' and res.status == 'ok' and not getattr(job, 'no_cross', False):
         r2 = cbmc.verify(job, wd, backend_flags=('--sat-solver', 'cadical'))
         res.cross = r2
     return res
